@@ -1,2 +1,218 @@
-/-! line-protocol driver for property C17 (stub) -/
-def main (_args : List String) : IO Unit := pure ()
+/-
+mirdrv_c17 — line-protocol front end of the C17 models.
+
+  mirdrv_c17 ledger   stdin: allocator event trace recorded by harness/c17_harness.c
+                      runs `Alloc.stepLenient` (the proven `step` + repair) on `Std.HashMap`;
+                      prints one `V <line> <label> <violation>` per violation, `LEAK <addr> <size>`
+                      lines at `F`, and `END events=… live=… maps=… wr=… violations=…`
+  mirdrv_c17 varr     stdin: VARR operation lines (with the allocator's answers) — prints the events
+                      and the array state the model `VarrAlloc.sysStep` predicts after each operation
+  mirdrv_c17 code     stdin: `ps N` then code-page operation lines — prints the events and result the
+                      model `AllocCode.codeStep` predicts
+
+Event syntax (decimal numbers):
+  m size ret | c num size ret | r ptr old new ret | f ptr | R fn ptr size caller
+  M len ret | U ptr len | P ptr len w|x | W ptr len | q | F | ps N | # label
+-/
+import MirVerif.Model.Alloc
+import MirVerif.Model.VarrAlloc
+import MirVerif.Model.AllocCode
+
+open MirVerif.Alloc MirVerif.VarrAlloc MirVerif.AllocCode
+
+abbrev HM := Std.HashMap Nat Nat
+
+def rawFnOfNat : Nat → RawFn
+  | 0 => .malloc | 1 => .calloc | 2 => .realloc | 3 => .free | 4 => .mmap | 5 => .munmap | _ => .mprotect
+
+def rawFnName : RawFn → String
+  | .malloc => "malloc" | .calloc => "calloc" | .realloc => "realloc" | .free => "free"
+  | .mmap => "mmap" | .munmap => "munmap" | .mprotect => "mprotect"
+
+def fmtEv : Ev → String
+  | .malloc s r => s!"m {s} {r}"
+  | .calloc n s r => s!"c {n} {s} {r}"
+  | .realloc p o n r => s!"r {p} {o} {n} {r}"
+  | .free p => s!"f {p}"
+  | .raw fn p s c => s!"R {rawFnName fn} {p} {s} {c}"
+  | .map l r => s!"M {l} {r}"
+  | .unmap p l => s!"U {p} {l}"
+  | .protect p l .writeExec => s!"P {p} {l} w"
+  | .protect p l .readExec => s!"P {p} {l} x"
+  | .write p l => s!"W {p} {l}"
+  | .quiesce => "q"
+  | .fin => "F"
+
+def fmtViolation : Violation → String
+  | .badTrace w => s!"badTrace {w}"
+  | .freeNotLive p => s!"freeNotLive {p}"
+  | .reallocNotLive p => s!"reallocNotLive {p}"
+  | .reallocOldSize p rep act => s!"reallocOldSize {p} reported={rep} actual={act}"
+  | .reallocNullOld rep => s!"reallocNullOld reported={rep}"
+  | .rawUse fn p s c => s!"rawUse {rawFnName fn} {p} {s} caller={c}"
+  | .rawOnLedgerBlock fn p c => s!"rawOnLedgerBlock {rawFnName fn} {p} caller={c}"
+  | .unmapMismatch p l => s!"unmapMismatch {p} {l}"
+  | .unmapWritable p l => s!"unmapWritable {p} {l}"
+  | .protectUnaligned p => s!"protectUnaligned {p}"
+  | .protectOutside p l => s!"protectOutside {p} {l}"
+  | .writeOutsideWindow p l => s!"writeOutsideWindow {p} {l}"
+  | .windowLeftOpen pg => s!"windowLeftOpen page={pg}"
+  | .leak n a s => s!"leak blocks={n} first={a} size={s}"
+  | .mapLeak n a l => s!"mapLeak regions={n} first={a} len={l}"
+
+def nat? (s : String) : Option Nat := s.toNat?
+
+def parseEv (ws : List String) : Option Ev :=
+  match ws with
+  | ["m", a, b] => do pure (.malloc (← nat? a) (← nat? b))
+  | ["c", a, b, c] => do pure (.calloc (← nat? a) (← nat? b) (← nat? c))
+  | ["r", a, b, c, d] => do pure (.realloc (← nat? a) (← nat? b) (← nat? c) (← nat? d))
+  | ["f", a] => do pure (.free (← nat? a))
+  | ["R", k, a, b, c] => do pure (.raw (rawFnOfNat (← nat? k)) (← nat? a) (← nat? b) (← nat? c))
+  | ["M", a, b] => do pure (.map (← nat? a) (← nat? b))
+  | ["U", a, b] => do pure (.unmap (← nat? a) (← nat? b))
+  | ["P", a, b, "w"] => do pure (.protect (← nat? a) (← nat? b) .writeExec)
+  | ["P", a, b, "x"] => do pure (.protect (← nat? a) (← nat? b) .readExec)
+  | ["W", a, b] => do pure (.write (← nat? a) (← nat? b))
+  | ["q"] => some .quiesce
+  | ["F"] => some .fin
+  | _ => none
+
+structure MonStat where
+  line : Nat := 0
+  events : Nat := 0
+  viol : Nat := 0
+  label : String := "-"
+
+/-- lines that belong to the harness' correspondence protocol, not to the allocator trace -/
+def ignorable (ws : List String) : Bool :=
+  match ws with
+  | [] => true
+  | w :: rest =>
+      (w.length ≥ 2 && w != "ps") || w == "S" || w == "X" || w == "G" || w == "Q" || (w == "R" && rest.length == 1)
+
+/- the ledger is passed on its own (not inside a record that stays alive) so that the hash map
+is updated in place -/
+partial def ledgerLoop (h : IO.FS.Stream) (L : Ledger HM) (st : MonStat) : IO (Ledger HM × MonStat) := do
+  let line ← h.getLine
+  if line.isEmpty then return (L, st)
+  let t := line.trimAscii.toString
+  let st := { st with line := st.line + 1 }
+  if t.isEmpty then ledgerLoop h L st
+  else if t.startsWith "#" then
+    ledgerLoop h L { st with label := ((t.drop 1).trimAscii.toString.replace " " "_") }
+  else
+    let ws := t.splitOn " "
+    match ws with
+    | ["ps", n] => ledgerLoop h { L with ps := (nat? n).getD 4096 } st
+    | _ =>
+      match parseEv ws with
+      | none =>
+          if ignorable ws then ledgerLoop h L st
+          else
+            IO.println s!"V {st.line} {st.label} parseError {t}"
+            ledgerLoop h L { st with viol := st.viol + 1 }
+      | some e =>
+          -- leak details before `fin` resets the ledger
+          if e == .fin then
+            let l := (LiveMap.toList L.live).toArray.qsort (fun a b => a.1 < b.1)
+            for p in l.toList.take 5000 do
+              IO.println s!"LEAK {p.1} {p.2}"
+            for r in L.maps do
+              IO.println s!"MAPLEAK {r.1} {r.2}"
+          let (L', v) := stepLenient L e
+          let st := { st with events := st.events + 1 }
+          match v with
+          | none => ledgerLoop h L' st
+          | some v =>
+              IO.println s!"V {st.line} {st.label} {fmtViolation v}"
+              ledgerLoop h L' { st with viol := st.viol + 1 }
+
+def runLedger : IO Unit := do
+  let (L, st) ← ledgerLoop (← IO.getStdin) (Ledger.init 4096) {}
+  let live := (LiveMap.toList L.live).length
+  IO.println s!"END events={st.events} live={live} maps={L.maps.length} wr={L.wr.length} violations={st.viol}"
+
+/-! ### VARR correspondence -/
+
+def parseSysOp (ws : List String) : Option SysOp :=
+  match ws with
+  | ["vcreate", h, esz, size, hdr, data] =>
+      do pure (.create (← nat? h) (← nat? esz) (← nat? size) (← nat? hdr) (← nat? data))
+  | ["vop", h, "expand", n, ret] => do pure (.op (← nat? h) (.expand (← nat? n) (← nat? ret)))
+  | ["vop", h, "tailor", n, ret] => do pure (.op (← nat? h) (.tailor (← nat? n) (← nat? ret)))
+  | ["vop", h, "push", ret] => do pure (.op (← nat? h) (.push (← nat? ret)))
+  | ["vop", h, "pusharr", len, ret] => do pure (.op (← nat? h) (.pushArr (← nat? len) (← nat? ret)))
+  | ["vop", h, "pop"] => do pure (.op (← nat? h) .pop)
+  | ["vop", h, "trunc", n] => do pure (.op (← nat? h) (.trunc (← nat? n)))
+  | ["vdestroy", h] => do pure (.destroy (← nat? h))
+  | ["omalloc", s, r] => do pure (.otherMalloc (← nat? s) (← nat? r))
+  | ["ofree", p] => do pure (.otherFree (← nat? p))
+  | _ => none
+
+def sysOpHandle : SysOp → Option Nat
+  | .create h .. => some h
+  | .op h _ => some h
+  | .destroy h => some h
+  | _ => none
+
+partial def varrLoop (h : IO.FS.Stream) (S : Sys) : IO Unit := do
+  let line ← h.getLine
+  if line.isEmpty then return ()
+  let t := line.trimAscii.toString
+  match parseSysOp (t.splitOn " ") with
+  | none => varrLoop h S
+  | some o =>
+    IO.println t
+    let (S', evs) := sysStep S o
+    for e in evs do IO.println (fmtEv e)
+    match sysOpHandle o with
+    | some hd =>
+      match S'.lookup hd with
+      | some va => IO.println s!"S {hd} {va.elsNum} {va.size} {va.data}"
+      | none => IO.println s!"S {hd} gone"
+    | none => pure ()
+    varrLoop h S'
+
+/-! ### code page correspondence -/
+
+def parseCodeOp (ws : List String) : Option CodeOp :=
+  match ws with
+  | ["cpublish", len, mr] => do pure (.publish (← nat? len) (← nat? mr))
+  | ["cpublishat", addr, len, mr] => do pure (.publishByAddr (← nat? addr) (← nat? len) (← nat? mr))
+  | ["cnewaddr", size, mr] => do pure (.getNewAddr (← nat? size) (← nat? mr))
+  | ["cchange", addr, len] => do pure (.change (← nat? addr) (← nat? len))
+  | "cupdate" :: base :: offs => do pure (.update (← nat? base) (← offs.mapM nat?))
+  | _ => none
+
+partial def codeLoop (h : IO.FS.Stream) (C : CodeCtx) : IO Unit := do
+  let line ← h.getLine
+  if line.isEmpty then return ()
+  let t := line.trimAscii.toString
+  let ws := t.splitOn " "
+  match ws with
+  | ["ps", n] => codeLoop h { C with ps := (nat? n).getD 4096 }
+  | ["cholder", s, f, b] =>
+      -- initial holders as dumped from the real context, oldest first
+      codeLoop h { C with holders := { start := (nat? s).getD 0, free := (nat? f).getD 0,
+                                       bound := (nat? b).getD 0 } :: C.holders }
+  | ["cfinish"] =>
+      IO.println t
+      for e in codeFinish C do IO.println (fmtEv e)
+      codeLoop h { C with holders := [] }
+  | _ =>
+    match parseCodeOp ws with
+    | none => codeLoop h C
+    | some o =>
+      IO.println t
+      let (C', evs) := codeStep C o
+      for e in evs do IO.println (fmtEv e)
+      IO.println s!"R {codeResult C o}"
+      codeLoop h C'
+
+def main (args : List String) : IO Unit := do
+  match args with
+  | ["ledger"] => runLedger
+  | ["varr"] => varrLoop (← IO.getStdin) []
+  | ["code"] => codeLoop (← IO.getStdin) { ps := 4096, holders := [] }
+  | _ => IO.eprintln "usage: mirdrv_c17 ledger|varr|code  < lines"
